@@ -46,4 +46,30 @@ let op_mgmt t =
   | M.Done (M.Ok f) -> mgmt_line f ^ " ## " ^ spec_line f
   | _ -> "mgmt cls=FAULT"
 
-let ops : (S.t * (S.t array -> S.t)) list = [ "mgmt", op_mgmt ]
+(* ie <rsn|wpa|msft> <hex>: the element decoders on their own; model ## spec (decode specs take the element body) *)
+let op_ie t =
+  let a = ints_of_hex t.(2) in
+  let n = Array.length a in
+  let rd = rd_strict_arr a in
+  let buf = List.map z_of_int (Array.to_list a) in
+  let rsn_s (i : M.rsn_info) = sp "ok %s,%s,%d[%s],%d[%s],%s" (zs i.M.r_version) (suite_str i.M.r_group)
+      (List.length i.M.r_pairwise) (suites_str i.M.r_pairwise) (List.length i.M.r_akms) (suites_str i.M.r_akms) (zs i.M.r_caps) in
+  let wpa_s (i : M.wpa_info) = sp "ok %s,%s,%d[%s],%d[%s]" (zs i.M.wi_version) (suite_str i.M.wi_multicast)
+      (List.length i.M.wi_unicast) (suites_str i.M.wi_unicast) (List.length i.M.wi_akms) (suites_str i.M.wi_akms) in
+  let res f r = match r with M.Done (M.Ok v) -> f v | M.Done (M.Err _) -> "err" | M.Fault (_, z) -> "FAULT@" ^ zs z | M.OutOfFuel -> "OUTOFFUEL" in
+  match t.(1) with
+  | "rsn" ->
+    let m = res rsn_s (M.get_rsn_info rd M.Z0 (z_of_int n)) in
+    let s = match M.s_rsn_decode buf with Some i -> rsn_s i | None -> "err" in
+    "ie rsn " ^ m ^ " ## ie rsn " ^ s
+  | "wpa" ->
+    let m = res wpa_s (M.get_wpa_info rd M.Z0 (z_of_int n)) in
+    (* the spec takes the whole vendor element body: put a WPA vendor header in front *)
+    let s = match M.s_wpa_decode (List.map z_of_int [0x00; 0x50; 0xf2; 1] @ buf) with Some i -> wpa_s i | None -> "err" in
+    "ie wpa " ^ m ^ " ## ie wpa " ^ s
+  | _ ->
+    let m = res (fun (b : M.bss) -> sp "ok e%s,w%s,%s" (zs b.M.b_enc) (zs b.M.b_wps) (zs b.M.b_wpa.M.wi_version))
+        (M.handle_msft rd M.bss0 M.Z0 (z_of_int n)) in
+    "ie msft " ^ m
+
+let ops : (S.t * (S.t array -> S.t)) list = [ "mgmt", op_mgmt; "ie", op_ie ]
